@@ -17,7 +17,9 @@ LEVEL = "fault_enumeration"
 TECHNIQUE = "fault injection at every byte offset of saved files + 'must raise' oracle on the real loaders"
 RULE = ("case = one file written by save() of a sketch reached by a random history (class, shape, history); every "
         "strict prefix of the file is handed to every applicable loader; non-trivial = the sketch was non-empty "
-        "and the full file loaded back to the saved state; distinct = by (config, history) digest")
+        "and the full file loaded back to the saved state; distinct = by (config, history) digest; variants: saved over an older larger "
+        "file, next to a complete sibling <stem>.npz, from a shared-memory sketch, right after same-shaped sketches of wider classes were "
+        "saved by the process, files above 1 MiB (tail + sample of offsets), table bytes that spell an inner archive")
 ASSUMPTIONS = [
     "a crash during save() leaves a prefix of the final file (np.savez writes the zip sequentially)",
     "files of 0.6-40 kB; larger files have the same zip structure with longer member bodies",
